@@ -203,3 +203,39 @@ def main_source(ntu):
         src += "  bad += report_tu%d();\n" % i
     src += "  return bad ? 3 : 0; }\n"
     return src
+
+
+# ------------------------------------------------------------------------------------------------
+# Constant initialisation of quantities created at compile time, in every unit.
+# `Create<unit>(value)` is declared constexpr, so a namespace-scope `const Q late = Q::Create<unit>(v);` is initialised
+# before any dynamic initialisation starts and any other initialiser may read it, whatever the order.  The program
+# observes this at run time: `early` is an ordinary variable defined (hence initialised) BEFORE `late`; it reads `late`
+# through a prior extern declaration.  If the compiler had to initialise `late` dynamically, `early` read zero.
+# ------------------------------------------------------------------------------------------------
+def constant_init_tu(index, tname, suffix, rows):
+    """rows: (quantity, unit type, enumerator id).  One translation unit per numeric type."""
+    qs = sorted({r[0] for r in rows})
+    src = "#include <cstdio>\n#include <cstring>\n" + "\n".join('#include "PhQ/%s.hpp"' % q for q in qs) + "\n"
+    src += "namespace ci_%s {\nusing T = %s;\n" % (suffix, tname)
+    for k, (q, ut, en) in enumerate(rows):
+        src += ("namespace k%d { using Q = PhQ::%s<T>; extern const Q late; static const T early = late.Value();\n"
+                "const Q late = Q::Create<PhQ::Unit::%s::%s>(static_cast<T>(1.25)); }\n" % (k, q, ut, en))
+    src += "}\nint report_ci_%d() {\n  int bad = 0;\n" % index
+    src += "  using T = %s;\n" % tname
+    for k, (q, ut, en) in enumerate(rows):
+        src += ('  { const T e = ci_%s::k%d::early, l = ci_%s::k%d::late.Value(); const bool eq = std::memcmp(&e, &l, %s) == 0; bad += !eq;\n'
+                '    std::printf("CI\\t%s\\t%s\\t%s\\t%s\\t%%d\\t%%.21Lg\\t%%.21Lg\\n", eq ? 1 : 0, static_cast<long double>(e), static_cast<long double>(l)); }\n'
+                % (suffix, k, suffix, k, "10" if tname == "long double" else "sizeof(T)", q, ut, en, tname))
+    src += "  return bad;\n}\n"
+    return src
+
+
+def constant_init_main(n):
+    src = "#include <cstdio>\n"
+    for i in range(n):
+        src += "int report_ci_%d();\n" % i
+    src += "int main() { int bad = 0;\n"
+    for i in range(n):
+        src += "  bad += report_ci_%d();\n" % i
+    src += "  return bad ? 3 : 0; }\n"
+    return src
